@@ -265,7 +265,7 @@ func (p BitList) At(i int) bool {
 		return false
 	}
 	bit := BitOffset(i)
-	addr := p.off.addOffset(bit.offset())
+	addr := p.off.addSizeUnchecked(Size(bit.offset()))
 	return p.seg.readUint8(addr)&bit.mask() != 0
 }
 
@@ -280,7 +280,7 @@ func (p BitList) Set(i int, v bool) {
 		panic("BitList.Set called on a non-bit list")
 	}
 	bit := BitOffset(i)
-	addr := p.off.addOffset(bit.offset())
+	addr := p.off.addSizeUnchecked(Size(bit.offset()))
 	b := p.seg.slice(addr, 1)
 	if v {
 		b[0] |= bit.mask()
